@@ -1,5 +1,124 @@
 (* C16 — theorems (statements only; proofs are in Proofs*.v) *)
 From Coq Require Import List NArith Bool Arith.
 From GixV.Base Require Import Bytes Outcome.
-From GixV.C16 Require Import Model Spec.
+From GixV.C16 Require Import Model Spec ProofsMerge ProofsBasic ProofsSingle ProofsWitness.
 Import ListNotations.
+
+(* ---- packed-refs: the merge of the sorted buffer with the sorted edits ----------------------------- *)
+
+(* what packed::Transaction::commit writes is strictly ascending by name (sorted, no duplicates) … *)
+Theorem packed_merge_sorted_unique :
+  forall (buf : list (bytes * byte)) (edits : list pedit),
+    ss (keys buf) -> has_dup (keys edits) = false ->
+    ss (keys (merge_edits (sort_edits edits) buf)).
+Proof. exact (fun buf edits S H => proj1 (packed_lines_correct buf edits S H)). Qed.
+
+(* … and holds exactly the edits' values for edited names and the old entries for all others *)
+Theorem packed_merge_lookup :
+  forall (buf : list (bytes * byte)) (edits : list pedit),
+    ss (keys buf) -> has_dup (keys edits) = false ->
+    forall n, assoc n (merge_edits (sort_edits edits) buf) = merged_lookup n edits buf.
+Proof. exact (fun buf edits S H => proj2 (packed_lines_correct buf edits S H)). Qed.
+
+(* ---- the expectation tables of lock_ref_and_apply_change are the map's compare-and-swap conditions -- *)
+
+Theorem update_expectations_are_cas :
+  forall log expected new existing,
+    check_update expected new existing = Ok tt <-> holds (Update log expected new) existing = true.
+Proof. exact check_update_is_cas. Qed.
+
+Theorem delete_expectations_are_cas :
+  forall log expected existing,
+    expected <> PMustNotExist ->
+    (check_delete expected existing = Ok tt <-> holds (Delete expected log) existing = true).
+Proof. exact check_delete_is_cas. Qed.
+
+Theorem expectation_check_panics_only_on_invalid_delete :
+  forall expected existing, check_delete expected existing = Panic -> expected = PMustNotExist.
+Proof. exact check_delete_panics_only_on_invalid. Qed.
+
+(* ---- a failed prepare and a rollback change nothing ------------------------------------------------ *)
+
+Theorem failed_prepare_changes_nothing :
+  forall st pmode commit edits e,
+    prepare_inner st pmode edits = Err e -> step st (Txn pmode commit edits) = (RPrepareErr e, st).
+Proof. exact failed_prepare. Qed.
+
+Theorem rollback_changes_nothing :
+  forall st pmode edits p,
+    prepare_inner st pmode edits = Ok p -> step st (Txn pmode false edits) = (RRollback, st).
+Proof. exact rollback. Qed.
+
+Theorem only_commit_changes_store :
+  forall st o,
+    fst (step st o) <> ROk -> (forall e, fst (step st o) <> RCommitErr e) -> snd (step st o) = st.
+Proof. exact only_commit_changes. Qed.
+
+Theorem history_without_commits_changes_nothing :
+  forall st ops,
+    Forall (fun o => match o with Txn _ c _ => c = false end) ops -> final_store st ops = st.
+Proof. exact history_without_commits. Qed.
+
+(* ---- refinement ------------------------------------------------------------------------------------ *)
+
+(* The property as a whole.  It is FALSE of the model and of the code (directory/file conflicts,
+   reflog-only edits: see the two _refuted theorems); what is proved of it is the _partial theorem. *)
+Definition txn_refines_map_full_statement : Prop := forall st ops, refines_map st ops.
+
+(* One edit without dereferencing on a store without packed-refs and without a directory/file conflict at
+   that name: for every expectation kind, update and delete, both reflog modes, the transaction commits
+   exactly when the map accepts it, the store then reads like the new map, and otherwise nothing changes. *)
+Theorem single_edit_cas_refines_map_partial :
+  forall (st : store) (e : refedit),
+    packed st = None -> re_deref e = false -> valid_change (re_change e) ->
+    lock_ok (loose st) (re_name e) = true -> blocked (re_name e) (loose st) [] = false ->
+    match spec_txn (observe st) [e] with
+    | Some v' => exists st', step st (Txn DeletionsOnly true [e]) = (ROk, st') /\ agrees st' v'
+    | None => exists err, step st (Txn DeletionsOnly true [e]) = (RPrepareErr err, st)
+    end.
+Proof. exact single_edit_refines. Qed.
+
+Theorem txn_refines_map_refuted : exists st ops, ~ refines_map st ops.
+Proof. exact (ex_intro _ df_store (ex_intro _ df_ops df_refutes)). Qed.
+
+(* known class df-commit-failed-midway: prepare succeeds, commit fails after writing one of two refs *)
+Theorem commit_not_atomic_on_directory_file_conflict_refuted :
+  exists st edits st', step st (Txn DeletionsOnly true edits) = (RCommitErr CLockCommit, st') /\ st' <> st.
+Proof. exact df_commit_changed_store. Qed.
+
+(* known class log-only-expectation-ignores-packed-refs *)
+Theorem log_only_expectation_ignores_packed_refs_refuted :
+  exists st e n t,
+    observe st n = Some t /\ re_name e = n
+    /\ step st (Txn DeletionsOnly true [e]) = (RPrepareErr EMustExist, st)
+    /\ exists v, spec_txn (observe st) [e] = Some v.
+Proof.
+  exact (ex_intro _ lo_store (ex_intro _ lo_edit (ex_intro _ ref_t (ex_intro _ (Obj x31)
+          (conj (proj1 log_only_misses_packed) (conj eq_refl (proj2 log_only_misses_packed))))))).
+Qed.
+
+(* ---- non-vacuity ----------------------------------------------------------------------------------- *)
+
+Example single_edit_hypotheses_satisfiable :
+  packed ex_store = None /\ re_deref ex_edit = false /\ valid_change (re_change ex_edit)
+  /\ lock_ok (loose ex_store) (re_name ex_edit) = true /\ blocked (re_name ex_edit) (loose ex_store) [] = false.
+Proof. exact ex_hyps. Qed.
+Example single_edit_example :
+  step ex_store (Txn DeletionsOnly true [ex_edit]) = (ROk, mkStore [(ref_a, Obj x32); (head, Sym ref_a)] None).
+Proof. exact ex_step. Qed.
+Example merge_hypotheses_satisfiable :
+  ss (keys [(ref_a, x31); (ref_ab, x33)]) /\ has_dup (keys [(ref_t, Some x32); (ref_a, @None byte)]) = false.
+Proof. exact ex_sorted. Qed.
+Example merge_example :
+  merge_edits (sort_edits [(ref_t, Some x32); (ref_a, None)]) [(ref_a, x31); (ref_ab, x33)]
+  = [(ref_ab, x33); (ref_t, x32)].
+Proof. exact ex_merge. Qed.
+Example deref_update_goes_to_packed_refs :
+  step ex_store (Txn DeletionsAndUpdatesRemoveLoose true
+                   [mkRefEdit head (Update AndRef (PMatch (Obj x31)) (Obj x32)) true])
+  = (ROk, mkStore [(head, Sym ref_a)] (Some [(ref_a, x32)])).
+Proof. exact ex_deref_packed. Qed.
+Example head_stays_loose_in_remove_loose_mode :
+  step ex_store (Txn DeletionsAndUpdatesRemoveLoose true [upd_any head x32])
+  = (ROk, mkStore [(head, Obj x32); (ref_a, Obj x31)] None).
+Proof. exact ex_head_stays_loose. Qed.
